@@ -94,6 +94,9 @@ structure Entity where
   attrs : List Attr
   rules : List Rule
   uniques : List UniqueItem := []
+  /-- a copy of an entity of ANOTHER schema of the run, present (under the name `<schema>.<entity>`) so that the inheritance
+      look-ups of this schema's entities can walk through it; the passes do not visit it (see `linked`) -/
+  foreign : Bool := false
   deriving Repr, DecidableEq
 
 inductive TypeBody
@@ -189,6 +192,9 @@ def builtinArity (n : String) : Option Nat := (ResolveGen.builtins.find? (·.1 =
 def sev (code : Nat) : Nat := Diag.severityOf code
 def isErrorCode (code : Nat) : Bool := decide (sev code ≥ LibErrors.SEVERITY_ERROR)
 def hasError (ds : List Diag) : Bool := ds.any fun d => isErrorCode d.code
+
+/-- the name an entity was declared under: a copy from another schema is called `<schema>.<entity>` (identifiers have no `.`) -/
+def declName (n : String) : String := ((n.splitOn ".").getLast?).getD n
 
 def mk (path : String) (code line : Nat) (args : List Arg) : Diag := ⟨code, path.toList, line, args, .symbol⟩
 def sArg (s : String) : Arg := .str s.toList
@@ -530,14 +536,14 @@ def typeDeclDiags (path : String) (env : Env) (s : Schema) (t : TypeDecl) : List
 
 def pass3 (path : String) (env : Env) (s : Schema) : List Diag :=
   s.decls.flatMap fun
-    | .entity e => superSubDiags path env s e
+    | .entity e => if e.foreign then [] else superSubDiags path env s e
     | .type t => typeDeclDiags path env s t
     | _ => []
 
 /-- the messages of one cycle search started at `start` -/
 def cycleDiags (path : String) (loopCode contCode : Nat) (lineOf : String → Nat) (start : String) : Option Dfs → List Diag
   | some r => if r.found then
-      mk path loopCode (lineOf start) [sArg start] :: r.trail.map (fun n => mk path contCode (lineOf n) [sArg n])
+      mk path loopCode (lineOf start) [sArg start] :: r.trail.map (fun n => mk path contCode (lineOf n) [sArg (declName n)])
     else []
   | none => []
 
@@ -709,7 +715,7 @@ def missingSuperDiags (path : String) (s : Schema) (e : Entity) : List Diag :=
   (subtypesOf s e).filterMap fun sub =>
     match findEntity s sub with
     | some se => if e.name ∈ supersOf s se then none
-                 else some (mk path LibErrors.MISSING_SUPERTYPE se.line [sArg e.name, sArg se.name])
+                 else some (mk path LibErrors.MISSING_SUPERTYPE se.line [sArg e.name, sArg (declName se.name)])
     | none => none
 
 /-- `ENTITYresolve_uniques` for one attribute reference of a UNIQUE rule -/
@@ -735,8 +741,8 @@ def uniqueDiags (path : String) (s : Schema) (e : Entity) (fuel : Nat) (u : Uniq
       | some qe =>
         if qe.attrs.any (·.name = u.attr) then needless ++ unqualified
         else
-          [mk path LibErrors.UNKNOWN_ATTR_IN_ENTITY u.line [sArg u.attr, sArg q],
-           mk path LibErrors.UNKNOWN_ATTR_IN_ENTITY u.line [sArg u.attr, sArg q]] ++ unqualified ++ needless
+          [mk path LibErrors.UNKNOWN_ATTR_IN_ENTITY u.line [sArg u.attr, sArg (declName q)],
+           mk path LibErrors.UNKNOWN_ATTR_IN_ENTITY u.line [sArg u.attr, sArg (declName q)]] ++ unqualified ++ needless
 
 /-- recursion budget of the sub/super cycle search: one level per newly marked entity, cut at the depth guard if there is one -/
 def subsuperFuel (s : Schema) : Nat :=
@@ -778,7 +784,7 @@ def entityPass4 (path : String) (env : Env) (s : Schema) (e : Entity) : List Dia
 def pass4 (path : String) (env : Env) (s : Schema) : List Diag :=
   s.decls.flatMap fun
     | .type t => selectCycleDiags path s t
-    | .entity e => entityPass4 path env s e
+    | .entity e => if e.foreign then [] else entityPass4 path env s e
     | _ => []
 
 /-- a function call inside a domain rule: arity warning, or undefined function (+ the MISSING_SELF it entails: the
@@ -824,7 +830,7 @@ def overloadCands (path : String) (s : Schema) (fuel : Nat) (e : Entity) : List 
     match a.redeclOf with
     | some _ => []
     | none => (supersOf s e).map fun sup =>
-        (namedAttr s a.name fuel sup, mk path LibErrors.OVERLOADED_ATTR a.line [sArg a.name, sArg sup])
+        (namedAttr s a.name fuel sup, mk path LibErrors.OVERLOADED_ATTR a.line [sArg a.name, sArg (declName sup)])
 
 def overloadDiags (path : String) (s : Schema) (fuel : Nat) (e : Entity) : List Diag :=
   (overloadCands path s fuel e).filterMap fun (r, d) => if r = some true then some d else none
@@ -839,7 +845,7 @@ def redeclDiags (path : String) (s : Schema) (fuel : Nat) (e : Entity) : List Di
         [mk path LibErrors.REDECL_NO_SUCH_SUPERTYPE a.line [sArg sup, sArg a.name]]
       else match findEntity s sup with
         | some se => if se.attrs.any (·.name = a.name) then []
-                     else [mk path LibErrors.REDECL_NO_SUCH_ATTR a.line [sArg a.name, sArg sup]]
+                     else [mk path LibErrors.REDECL_NO_SUCH_ATTR a.line [sArg a.name, sArg (declName sup)]]
         | none => []
 
 /-- one actual parameter in entity scope -/
@@ -929,8 +935,8 @@ def algDiags (path : String) (env : Env) (s : Schema) : List Diag :=
 
 def pass5 (path : String) (env : Env) (s : Schema) : Pass :=
   let fuel := s.decls.length + 1
-  { diags := typeRuleDiags path s ++ s.entities.flatMap (entityPass5 path env s fuel) ++ algDiags path env s,
-    diverges := s.entities.any fun e => (overloadCands path s fuel e).any fun (r, _) => r = none }
+  { diags := typeRuleDiags path s ++ (s.entities.filter (!·.foreign)).flatMap (entityPass5 path env s fuel) ++ algDiags path env s,
+    diverges := (s.entities.filter (!·.foreign)).any fun e => (overloadCands path s fuel e).any fun (r, _) => r = none }
 
 /-- pass 2 dereferences the NULL entry that a failed `USE FROM <undefined>;` leaves in `use_schemas` when some schema
     imports an item from the schema holding that clause and the look-up gets as far as the fully USE'd schemas — unless
@@ -955,15 +961,78 @@ def normSchema (s : Schema) : Schema :=
 /-- the schemas the later passes look at (as the parser left them) -/
 def liveSchemas (f : File) : List Schema := (f.schemas.filter (resolvable f)).map normSchema
 
+/-! ## inheritance across schemas
+
+An entity may name a supertype (or a subtype) that its schema interfaces from another schema, under the name it has there or
+under a new one (`USE FROM b ( p AS pp )`).  `linked f fb cur` is schema `cur` with every entity reference of an entity header
+resolved: own entities keep their names, an entity of another schema is called `<schema>.<entity>`; and with a copy (flagged
+`foreign`) of every entity of every other schema, its own header resolved in ITS schema's scope.  All inheritance look-ups of
+passes 4 and 5 (`supersOf`, `subtypesOf`, `namedAttr`, `varFind`, `isAncestor`, the cycle searches) then walk across schema
+borders; the passes themselves visit only the entities that are not `foreign`. -/
+
+def qn (S n : String) : String := S ++ "." ++ n
+
+/-- (home schema, declared name) of the entity that `n`, written in schema `t`, denotes -/
+def entityRefIn (f : File) (fb : Bool) (t : Schema) (n : String) : Option (String × String) :=
+  if isEntity t n then some (t.name, n)
+  else match ownObj t n with
+    | some _ => none
+    | none => match visible f fb (importFuel f) t.name n with
+      | some o => if o.kind = .entity then some (o.schema, o.name) else none
+      | none => none
+
+/-- the name of entity (S, n) inside the linked view of schema `cur` -/
+def canonName (cur : String) (r : String × String) : String := if r.1 = cur then r.2 else qn r.1 r.2
+
+/-- an entity header (`SUBTYPE OF`, `SUPERTYPE OF`) with its references resolved in its home schema `t`; unresolved names stay -/
+def linkHeader (f : File) (fb : Bool) (cur : String) (t : Schema) (e : Entity) : Entity :=
+  let nameOf := fun (x : String) => match entityRefIn f fb t x with | some r => canonName cur r | none => x
+  { e with name := canonName cur (t.name, e.name),
+           supers := e.supers.map fun x => (nameOf x.1, x.2),
+           subs := e.subs.map nameOf,
+           foreign := t.name != cur }
+
+/-- stage 1: headers resolved, the other schemas' entities appended -/
+def linked0 (f : File) (fb : Bool) (cur : Schema) : Schema :=
+  { cur with decls :=
+      (cur.decls.map fun | .entity e => .entity (linkHeader f fb cur.name cur e) | d => d) ++
+      ((f.schemas.filter (·.name != cur.name)).flatMap fun t =>
+        (normSchema t).entities.map fun e => .entity (linkHeader f fb cur.name t e)) }
+
+/-- the supertype that `w`, written as the qualifier of `SELF\w.attr` inside entity `en`, denotes (`ENTITYfind_inherited_entity`):
+    an ancestor DECLARED under that name; failing that — regenerated `groupQualifierResolvesAlias` — the ancestor that `w` denotes in
+    the schema's scope (an interfaced supertype known under a new name); `w` itself when there is none -/
+def qualifierTarget (f : File) (fb : Bool) (cur : Schema) (l0 : Schema) (en w : String) : String :=
+  let anc := upClosure (superGraph l0) (l0.decls.length + 1) (superGraph l0 en)
+  match anc.find? (fun a => declName a = w) with
+  | some a => a
+  | none =>
+    if ResolveGen.groupQualifierResolvesAlias then
+      (match entityRefIn f fb cur w with
+       | some r => if canonName cur.name r ∈ anc then canonName cur.name r else w
+       | none => w)
+    else w
+
+/-- stage 2: the qualifiers of attribute redeclarations and UNIQUE references of the schema's own entities name their target -/
+def linked (f : File) (fb : Bool) (cur : Schema) : Schema :=
+  let l0 := linked0 f fb cur
+  { l0 with decls := l0.decls.map fun
+      | .entity e =>
+        if e.foreign then .entity e
+        else .entity { e with
+          attrs := e.attrs.map fun a => { a with redeclOf := a.redeclOf.map (qualifierTarget f fb cur l0 e.name) },
+          uniques := e.uniques.map fun u => { u with qual := u.qual.map (qualifierTarget f fb cur l0 e.name) } }
+      | d => d }
+
 /-- all five passes over the whole file (each pass runs over every live schema before the next one starts; no pass is
     gated on errors of an earlier one) -/
 def resolveDiags (f : File) : Pass :=
   let fb := ResolveGen.renameUselistFallback
   let live := liveSchemas f
-  let p5 := live.map fun s => pass5 (fileOf f s) (envOf f fb s) s
+  let p5 := live.map fun s => pass5 (fileOf f s) (envOf f fb s) (linked f fb s)
   { diags := externalParseDiags f ++ f.schemas.flatMap (pass1 f) ++ live.flatMap (pass2 f fb) ++
-             live.flatMap (fun s => pass3 (fileOf f s) (envOf f fb s) s) ++
-             live.flatMap (fun s => pass4 (fileOf f s) (envOf f fb s) s) ++ p5.flatMap (·.diags),
+             live.flatMap (fun s => pass3 (fileOf f s) (envOf f fb s) (linked f fb s)) ++
+             live.flatMap (fun s => pass4 (fileOf f s) (envOf f fb s) (linked f fb s)) ++ p5.flatMap (·.diags),
     diverges := p5.any (·.diverges) || nullUseCrash f }
 
 /-! ## the verdict -/
